@@ -50,7 +50,8 @@ RULES = {
     "full_join_ineq": (("ValueError",), ("join",)),
     # markers
     "marker_in_mutate": (("TypeError",), ("mutate", "filter", "summarize")),
-    "marker_nested": (("TypeError",), ("mutate", "arrange_nested")),
+    # a marker nested inside an `arrange` argument is left grey by the documentation: not generated
+    "marker_nested": (("TypeError",), ("mutate",)),
     "rename_hidden_ref": (("ColumnNotFoundError", "ValueError"), ("rename",)),
 }
 
@@ -58,46 +59,63 @@ NESTS = ("top", "arith", "case_branch", "case_cond", "ctx_kwarg")
 
 
 def gen_reject(g):
-    """-> reject step (generator side: chooses rule, verb position, nesting; all by name)"""
+    """-> reject step (generator side: chooses rule, verb position, nesting; all by name).
+    A rule is chosen among those whose precondition holds for some table (pair) of the pool."""
     m = g.m
     rng = g.rng
-    pt = g.pick_table(lambda p: len(p.m.visible) >= 2)
-    if pt is None:
-        return None
     rules = list(RULES)
     only = g.p.get("reject_rules")
     if only:
         rules = [r for r in rules if r in only]
-    rule = rng.choice(rules)
-    classes, verbs = RULES[rule]
-    verb = rng.choice(verbs)
-    st = {"op": "reject", "t": pt.id, "rule": rule, "verb": verb, "nest": rng.choice(NESTS), "via": rng.choice(["C", "own", "ref"])}
     T = m.model.toks
-    vis = pt.m.visible
-    ints = [n for n, t in vis if T[t].kind == "int"]
-    strs = [n for n, t in vis if T[t].kind == "str"]
-    st["int"] = rng.choice(ints) if ints else None
-    st["int2"] = rng.choice(ints) if ints else None
-    st["str"] = rng.choice(strs) if strs else None
-    st["any"] = rng.choice([n for n, _ in vis])
-    st["new"] = g.fresh_name()
-    if rule in ("foreign_ref", "foreign_ref_on", "reselect_hidden", "rename_hidden_ref"):
-        if rule in ("reselect_hidden", "rename_hidden_ref"):
-            hid = set(pt.m.hidden())
-            cands = [r for r, t in m.ref_toks.items() if t in hid]
+    for _ in range(8):
+        pt = g.pick_table(lambda p: len(p.m.visible) >= 2)
+        if pt is None:
+            return None
+        rule = rng.choice(rules)
+        classes, verbs = RULES[rule]
+        verb = rng.choice(verbs)
+        st = {"op": "reject", "t": pt.id, "rule": rule, "verb": verb, "nest": rng.choice(NESTS), "via": rng.choice(["C", "own", "ref"])}
+        vis = pt.m.visible
+        ints = [n for n, t in vis if T[t].kind == "int"]
+        strs = [n for n, t in vis if T[t].kind == "str"]
+        st["int"] = rng.choice(ints) if ints else None
+        st["int2"] = rng.choice(ints) if ints else None
+        st["str"] = rng.choice(strs) if strs else None
+        st["any"] = rng.choice([n for n, _ in vis])
+        st["new"] = g.fresh_name()
+        if rule in ("foreign_ref", "foreign_ref_on", "reselect_hidden", "rename_hidden_ref"):
+            if rule in ("reselect_hidden", "rename_hidden_ref"):
+                hid = set(pt.m.hidden())
+                cands = [r for r, t in m.ref_toks.items() if t in hid]
+            else:
+                cands = [r for r, t in m.ref_toks.items() if t not in pt.m.scope]
+            if not cands:
+                continue
+            st["ref"] = rng.choice(cands)
+        if verb in ("join", "join_on", "union"):
+            def overlap(p):
+                return bool((p.m.origins & pt.m.origins) or (set(p.m.scope) & set(pt.m.scope)))
+
+            if rule == "join_same_origin":
+                pred = lambda p: p.id != pt.id and overlap(p) and not p.m.grouping  # noqa: E731
+            elif rule in ("join_grouped", "union_grouped"):
+                pred = lambda p: p.id != pt.id and (bool(p.m.grouping) or bool(pt.m.grouping))  # noqa: E731
+            elif rule == "union_columns":
+                pred = lambda p: p.id != pt.id and set(p.m.names()) != set(pt.m.names()) and not p.m.grouping  # noqa: E731
+            elif rule in ("join_cross_backend", "union_cross_backend"):
+                pred = lambda p: p.id != pt.id and "sqlite" in p.real and "polars" in pt.real and not p.m.grouping  # noqa: E731
+            else:
+                pred = lambda p: p.id != pt.id and not overlap(p) and not p.m.grouping and bool(set(p.real) & set(pt.real))  # noqa: E731
+            other = g.pick_table(pred)
+            if other is None:
+                continue
+            st["other"] = other.id
         else:
-            cands = [r for r, t in m.ref_toks.items() if t not in pt.m.scope]
-        if not cands:
-            return None
-        st["ref"] = rng.choice(cands)
-    if rule in ("join_grouped", "join_same_origin", "join_cross_backend", "join_suffix_collision", "full_join_ineq", "window_in_on", "pred_nonbool", "type_add_str", "foreign_ref_on", "unknown_on_name", "union_grouped", "union_cross_backend", "union_columns") and (
-        verb in ("join", "join_on", "union")
-    ):
-        other = g.pick_table(lambda p: p.id != pt.id and set(p.real) & set(pt.real))
-        if other is None:
-            return None
-        st["other"] = other.id
-    return st
+            other = None
+        if m.reject_precondition(st, pt, other) is None:
+            return st
+    return None
 
 
 class RejectsMixin:
@@ -210,7 +228,7 @@ class RejectsMixin:
     def col(self, step, t, name, rep):
         """address column `name` of real table t in the way the step prescribes"""
         via = step["via"]
-        if via == "C":
+        if via == "C" and step["verb"] != "join_on":  # C.name is ambiguous inside `on`
             return getattr(pdt.C, name)
         return t[name]
 
@@ -261,7 +279,13 @@ class RejectsMixin:
             raise AssertionError(verb)
 
         def o_name():
-            return (o >> pdt.columns())[0]
+            names = o >> pdt.columns()
+            om = self.tables[step["other"]].m
+            for n in names:
+                tok = om.tok_of_name(n)
+                if tok is not None and self.model.toks[tok].kind == "int":
+                    return n
+            raise Skip("right table has no int column")
 
         nested = lambda bad: self.nest(step, t, rep, bad, own_int)  # noqa: E731
 
@@ -331,13 +355,13 @@ class RejectsMixin:
         if rule == "join_suffix_collision":
             on = o_name()
             left = t >> pdt.mutate(**{on + "_zz": t[step["any"]]})
-            return left >> pdt.join(o, pdt.lit(True) if step["nest"] == "top" else left[step["any"]] == o[on], "inner", suffix="_zz")
+            return left >> pdt.join(o, [], "inner", suffix="_zz")
         if rule in ("join_grouped", "join_same_origin", "join_cross_backend"):
             if rule == "join_cross_backend":
                 o = self.tables[step["other"]].real["sqlite"]
                 if rep != "polars":
                     raise Skip("cross backend is driven from the polars replica")
-            return t >> pdt.join(o, t[step["any"]] == o[o_name()], "inner")
+            return t >> pdt.join(o, [], "inner")
         if rule in ("union_grouped", "union_columns", "union_cross_backend"):
             if rule == "union_cross_backend":
                 o = self.tables[step["other"]].real["sqlite"]
